@@ -117,8 +117,13 @@ func Verify(_ *log.Logger, file string) error {
 			if e.TileID < minTileID {
 				minTileID = e.TileID
 			}
-			if e.TileID > maxTileID {
-				maxTileID = e.TileID
+			// the entry addresses TileID .. TileID+RunLength-1
+			lastTileID := e.TileID
+			if e.RunLength > 1 {
+				lastTileID += uint64(e.RunLength) - 1
+			}
+			if lastTileID > maxTileID {
+				maxTileID = lastTileID
 			}
 
 			if e.Offset+uint64(e.Length) > header.TileDataLength {
